@@ -25,57 +25,66 @@ def GPar (par : Nat → Sess) : Prop :=
   ∀ s, (par s).est = true ∧ (par s).sockOpen = true ∧ 1 ≤ (par s).nstart ∧ (par s).maxRtx < 256
 
 /-- a pending entry is armed for the next slot of the schedule that started with its first transmission -/
-def PendOk (out : List Out) (p : Nat × PMsg) : Prop :=
-  ∃ t0, Out.tx t0 p.2.sess p.2.mid 0 true ∈ out ∧ p.1 = sched t0 p.2.T (p.2.cnt + 1)
+def PendOk (pu : Prop) (out : List Out) (p : Nat × PMsg) : Prop :=
+  pu → ∃ t0, Out.tx t0 p.2.sess p.2.mid 0 true ∈ out ∧ p.1 = sched t0 p.2.T (p.2.cnt + 1)
 
 /-- every transmission so far is on the schedule of its message -/
-def OutOk (par : Nat → Sess) (P : Nat → Nat → Nat → Prop) (out : List Out) : Prop :=
-  ∀ t s mid k c, Out.tx t s mid k c ∈ out →
+def OutOk (pu : Prop) (par : Nat → Sess) (P : Nat → Nat → Nat → Prop) (out : List Out) : Prop :=
+  pu → ∀ t s mid k c, Out.tx t s mid k c ∈ out →
     c = true ∧ ∃ t0 T, Out.tx t0 s mid 0 true ∈ out ∧ t = sched t0 T k ∧ k ≤ (par s).maxRtx ∧ P s mid T
 
-structure FInv (par : Nat → Sess) (P : Nat → Nat → Nat → Prop) (l : L) : Prop where
+structure FInv (pu : Prop) (par : Nat → Sess) (P : Nat → Nat → Nat → Prop) (l : L) : Prop where
   base : l.q.base ≤ l.now
   sess : GSess par P l
   nodes : ∀ n ∈ l.q.nodes, NodeOk par P n
-  pend : ∀ p ∈ absP (mxOf par) l.q.base l.q.nodes, PendOk l.out p
-  outs : OutOk par P l.out
+  pend : ∀ p ∈ absP (mxOf par) l.q.base l.q.nodes, PendOk pu l.out p
+  outs : OutOk pu par P l.out
 
 /-- the clock has not passed a pending deadline -/
-def Fut (l : L) : Prop := ∀ e ∈ abs l.q, l.now ≤ e.deadline
+def Fut (pu : Prop) (l : L) : Prop := pu → ∀ e ∈ abs l.q, l.now ≤ e.deadline
 
-theorem fut_iff (mx : Nat → Nat) (l : L) : Fut l ↔ ∀ p ∈ absP mx l.q.base l.q.nodes, l.now ≤ p.1 := by
+theorem fut_iff (pu : Prop) (mx : Nat → Nat) (l : L) :
+    Fut pu l ↔ (pu → ∀ p ∈ absP mx l.q.base l.q.nodes, l.now ≤ p.1) := by
   unfold Fut abs
   have h := absP_fst mx l.q.base l.q.nodes
   constructor
-  · intro hf p hp
+  · intro hf' hpu' p hp
+    have hf := hf' hpu' 
     have : p.1 ∈ (absP mx l.q.base l.q.nodes).map (·.1) := List.mem_map.2 ⟨p, hp, rfl⟩
     rw [h] at this
     obtain ⟨e, he, hd⟩ := List.mem_map.1 this
     rw [← hd]; exact hf e he
-  · intro hf e he
+  · intro hf' hpu' e he
+    have hf := hf' hpu'
     have : e.deadline ∈ (absFrom l.q.base l.q.nodes).map (·.deadline) := List.mem_map.2 ⟨e, he, rfl⟩
     rw [← h] at this
     obtain ⟨p, hp, hd⟩ := List.mem_map.1 this
     rw [← hd]; exact hf p hp
 
-theorem pendOk_mono {out : List Out} {p : Nat × PMsg} (o : Out) (h : PendOk out p) : PendOk (o :: out) p := by
-  obtain ⟨t0, h1, h2⟩ := h
+theorem pendOk_mono {pu : Prop} {out : List Out} {p : Nat × PMsg} (o : Out) (h : PendOk pu out p) :
+    PendOk pu (o :: out) p := by
+  intro hpu'
+  obtain ⟨t0, h1, h2⟩ := h hpu'
   exact ⟨t0, List.mem_cons_of_mem _ h1, h2⟩
 
-theorem outOk_cons_other {par : Nat → Sess} {P : Nat → Nat → Nat → Prop} {out : List Out} (o : Out)
-    (h : OutOk par P out) (ho : ∀ t s mid k c, o ≠ .tx t s mid k c) : OutOk par P (o :: out) := by
-  intro t s mid k c hm
+theorem outOk_cons_other {pu : Prop} {par : Nat → Sess} {P : Nat → Nat → Nat → Prop} {out : List Out} (o : Out)
+    (h' : OutOk pu par P out) (ho : ∀ t s mid k c, o ≠ .tx t s mid k c) : OutOk pu par P (o :: out) := by
+  intro hpu' t s mid k c hm
+  have h := h' hpu' 
   simp only [List.mem_cons] at hm
   rcases hm with hm | hm
   · exact absurd hm.symm (ho t s mid k c)
   · obtain ⟨hc, t0, T, h1, h2⟩ := h t s mid k c hm
     exact ⟨hc, t0, T, List.mem_cons_of_mem _ h1, h2⟩
 
-theorem outOk_cons_tx {par : Nat → Sess} {P : Nat → Nat → Nat → Prop} {out : List Out} (t s mid k : Nat)
-    (h : OutOk par P out)
-    (hn : ∃ t0 T, Out.tx t0 s mid 0 true ∈ Out.tx t s mid k true :: out ∧ t = sched t0 T k ∧ k ≤ (par s).maxRtx ∧ P s mid T) :
-    OutOk par P (Out.tx t s mid k true :: out) := by
-  intro t' s' mid' k' c hm
+theorem outOk_cons_tx {pu : Prop} {par : Nat → Sess} {P : Nat → Nat → Nat → Prop} {out : List Out} (t s mid k : Nat)
+    (h' : OutOk pu par P out)
+    (hn' : pu → ∃ t0 T, Out.tx t0 s mid 0 true ∈ Out.tx t s mid k true :: out ∧ t = sched t0 T k ∧
+      k ≤ (par s).maxRtx ∧ P s mid T) :
+    OutOk pu par P (Out.tx t s mid k true :: out) := by
+  intro hpu' t' s' mid' k' c hm
+  have h := h' hpu'
+  have hn := hn' hpu' 
   simp only [List.mem_cons] at hm
   rcases hm with hm | hm
   · injection hm with h1 h2 h3 h4 h5
@@ -84,8 +93,8 @@ theorem outOk_cons_tx {par : Nat → Sess} {P : Nat → Nat → Nat → Prop} {o
   · obtain ⟨hc, t0, T, h1, h2⟩ := h t' s' mid' k' c hm
     exact ⟨hc, t0, T, List.mem_cons_of_mem _ h1, h2⟩
 
-theorem finv_emit_other {par : Nat → Sess} {P : Nat → Nat → Nat → Prop} {l : L} (o : Out) (hi : FInv par P l)
-    (ho : ∀ t s mid k c, o ≠ .tx t s mid k c) : FInv par P (l.emit o) :=
+theorem finv_emit_other {pu : Prop} {par : Nat → Sess} {P : Nat → Nat → Nat → Prop} {l : L} (o : Out) (hi : FInv pu par P l)
+    (ho : ∀ t s mid k c, o ≠ .tx t s mid k c) : FInv pu par P (l.emit o) :=
   ⟨hi.base, hi.sess, hi.nodes, fun p hp => pendOk_mono o (hi.pend p hp), outOk_cons_other o hi.outs ho⟩
 
 theorem gsess_setS {par : Nat → Sess} {P : Nat → Nat → Nat → Prop} {l : L} (hs : GSess par P l) (s ca : Nat)
@@ -103,10 +112,10 @@ theorem gsess_congr {par : Nat → Sess} {P : Nat → Nat → Nat → Prop} {l l
   rw [this]; exact hs s
 
 /-- a fresh Confirmable whose first transmission has just been emitted is armed for `now + T` -/
-theorem finv_enq_fresh {par : Nat → Sess} {P : Nat → Nat → Nat → Prop} (l : L) (n : Node) (hi : FInv par P l)
-    (hf : Fut l) (hn : NodeOk par P n) (hc : n.cnt = 0)
+theorem finv_enq_fresh {pu : Prop} {par : Nat → Sess} {P : Nat → Nat → Nat → Prop} (l : L) (n : Node) (hi : FInv pu par P l)
+    (hf : Fut pu l) (hn : NodeOk par P n) (hc : n.cnt = 0)
     (htx : Out.tx l.now n.sess n.mid 0 true ∈ l.out) :
-    FInv par P { l with q := enqueue l.q l.now n.timeout n } ∧ Fut { l with q := enqueue l.q l.now n.timeout n } := by
+    FInv pu par P { l with q := enqueue l.q l.now n.timeout n } ∧ Fut pu { l with q := enqueue l.q l.now n.timeout n } := by
   have hab := absP_enqueue (mxOf par) l.q l.now n.timeout n (Or.inr hi.base)
   constructor
   · refine ⟨enqueue_base_le _ _ hi.base, hi.sess, all_enqueue (nodeOk_tfree par P) _ _ _ _ hi.nodes hn, ?_, hi.outs⟩
@@ -114,23 +123,23 @@ theorem finv_enq_fresh {par : Nat → Sess} {P : Nat → Nat → Nat → Prop} (
     simp only [] at hp
     rw [hab] at hp
     rcases mem_pinsert.1 hp with rfl | hp
-    · exact ⟨l.now, htx, by simp [toP, hc, sched]⟩
+    · exact fun _ => ⟨l.now, htx, by simp [toP, hc, sched]⟩
     · exact hi.pend p hp
-  · rw [fut_iff (mxOf par)]
-    intro p hp
+  · rw [fut_iff pu (mxOf par)]
+    intro hpu' p hp
     simp only [] at hp
     rw [hab] at hp
     rcases mem_pinsert.1 hp with rfl | hp
     · simp
-    · exact (fut_iff (mxOf par) l).1 hf p hp
+    · exact (fut_iff pu (mxOf par) l).1 hf hpu' p hp
 
 theorem sched_zero (t0 T : Nat) : sched t0 T 0 = t0 := by simp [sched]
 
 /-- the drain loop of `coap_session_connected`: every delayed Confirmable that gets NSTART room is transmitted for
 the first time now and armed for `now + T` -/
-theorem drain_finv {par : Nat → Sess} {P : Nat → Nat → Nat → Prop} (hp : GPar par) :
-    ∀ (fuel : Nat) (l : L) (s : Nat), FInv par P l → Fut l →
-      FInv par P (drain fuel l s) ∧ Fut (drain fuel l s) ∧ (drain fuel l s).now = l.now := by
+theorem drain_finv {pu : Prop} {par : Nat → Sess} {P : Nat → Nat → Nat → Prop} (hp : GPar par) :
+    ∀ (fuel : Nat) (l : L) (s : Nat), FInv pu par P l → Fut pu l →
+      FInv pu par P (drain fuel l s) ∧ Fut pu (drain fuel l s) ∧ (drain fuel l s).now = l.now := by
   intro fuel
   induction fuel with
   | zero => intro l s hi hf; exact ⟨hi, hf, rfl⟩
@@ -155,21 +164,22 @@ theorem drain_finv {par : Nat → Sess} {P : Nat → Nat → Nat → Prop} (hp :
               q := enqueue l.q l.now n.timeout { n with sess := s } } s := by
           simp [drain, hg, hest, hcon, hgate, waitAck, hcnt, Nat.mod_eq_of_lt hT32, L.emit, L.setS]
         rw [hstep]
-        have hi2 : FInv par P ((l.setS s { par s with conActive := (ca + 1) % 256, delayq := rest }).emit
+        have hi2 : FInv pu par P ((l.setS s { par s with conActive := (ca + 1) % 256, delayq := rest }).emit
             (.tx l.now s n.mid 0 true)) := by
           refine ⟨hi.base, gsess_congr rfl (gsess_setS hi.sess s _ rest ?_ (fun x hx => hdq x (by simp [hx]))),
             hi.nodes, fun p hp => pendOk_mono _ (hi.pend p hp), ?_⟩
           · have : (ca + 1) % 256 ≤ ca + 1 := Nat.mod_le _ _
             omega
-          · exact outOk_cons_tx _ _ _ _ hi.outs ⟨l.now, n.timeout, by simp, (sched_zero _ _).symm, Nat.zero_le _, hP⟩
+          · exact outOk_cons_tx _ _ _ _ hi.outs
+              (fun _ => ⟨l.now, n.timeout, by simp, (sched_zero _ _).symm, Nat.zero_le _, hP⟩)
         have hn' : NodeOk par P { n with sess := s } := ⟨hcon, htok, hT, by simp [hcnt], h64, hP⟩
         have := finv_enq_fresh _ { n with sess := s } hi2 hf hn' hcnt (by simp [L.emit])
         have h3 := ih _ s this.1 this.2
         exact ⟨h3.1, h3.2.1, h3.2.2⟩
 
-theorem connected_finv {par : Nat → Sess} {P : Nat → Nat → Nat → Prop} (hp : GPar par) (l : L) (s : Nat)
-    (hi : FInv par P l) (hf : Fut l) :
-    FInv par P (connected l s) ∧ Fut (connected l s) ∧ (connected l s).now = l.now := by
+theorem connected_finv {pu : Prop} {par : Nat → Sess} {P : Nat → Nat → Nat → Prop} (hp : GPar par) (l : L) (s : Nat)
+    (hi : FInv pu par P l) (hf : Fut pu l) :
+    FInv pu par P (connected l s) ∧ Fut pu (connected l s) ∧ (connected l s).now = l.now := by
   obtain ⟨ca, dq, hg, hle, hdq⟩ := hi.sess s
   have e : ({ (l.getS s) with est := true } : Sess) = { par s with conActive := ca, delayq := dq } := by
     rw [hg]
@@ -182,15 +192,15 @@ theorem connected_finv {par : Nat → Sess} {P : Nat → Nat → Nat → Prop} (
   rw [e]
   exact drain_finv hp _ _ s ⟨hi.base, gsess_setS hi.sess s ca dq hle hdq, hi.nodes, hi.pend, hi.outs⟩ hf
 
-theorem release_finv {par : Nat → Sess} {P : Nat → Nat → Nat → Prop} (hp : GPar par) (l : L) (s : Nat)
-    (hi : FInv par P l) (hf : Fut l) :
-    FInv par P (release l s) ∧ Fut (release l s) ∧ (release l s).now = l.now := by
+theorem release_finv {pu : Prop} {par : Nat → Sess} {P : Nat → Nat → Nat → Prop} (hp : GPar par) (l : L) (s : Nat)
+    (hi : FInv pu par P l) (hf : Fut pu l) :
+    FInv pu par P (release l s) ∧ Fut pu (release l s) ∧ (release l s).now = l.now := by
   obtain ⟨ca, dq, hg, hle, hdq⟩ := hi.sess s
   unfold release
   simp only []
   split
   · exact ⟨hi, hf, rfl⟩
-  · have h1 : FInv par P (l.setS s { (l.getS s) with conActive := (l.getS s).conActive - 1 }) := by
+  · have h1 : FInv pu par P (l.setS s { (l.getS s) with conActive := (l.getS s).conActive - 1 }) := by
       rw [hg]
       exact ⟨hi.base, gsess_setS hi.sess s (ca - 1) dq (by omega) hdq, hi.nodes, hi.pend, hi.outs⟩
     split
@@ -202,9 +212,9 @@ theorem L_ext {l l' : L} (h1 : l'.now = l.now) (h2 : l'.q = l.q) (h3 : l'.sess =
   cases l; cases l'; simp_all
 
 /-- `coap_retransmit` of a node that was due exactly now and was on its schedule -/
-theorem retransmit_finv {par : Nat → Sess} {P : Nat → Nat → Nat → Prop} (hp : GPar par) (l : L) (n : Node)
-    (hi : FInv par P l) (hf : Fut l) (hn : NodeOk par P n) (hpn : PendOk l.out (l.now, toP (mxOf par) n)) :
-    FInv par P (retransmit l n) ∧ Fut (retransmit l n) ∧ (retransmit l n).now = l.now := by
+theorem retransmit_finv {pu : Prop} {par : Nat → Sess} {P : Nat → Nat → Nat → Prop} (hp : GPar par) (l : L) (n : Node)
+    (hi : FInv pu par P l) (hf : Fut pu l) (hn : NodeOk par P n) (hpn : PendOk pu l.out (l.now, toP (mxOf par) n)) :
+    FInv pu par P (retransmit l n) ∧ Fut pu (retransmit l n) ∧ (retransmit l n).now = l.now := by
   obtain ⟨hcon, htok, hT, hcnt, h64, hP⟩ := hn
   obtain ⟨ca, dq, hg, hle, hdq⟩ := hi.sess n.sess
   obtain ⟨hest, hopen, hns, h256⟩ := hp n.sess
@@ -224,8 +234,7 @@ theorem retransmit_finv {par : Nat → Sess} {P : Nat → Nat → Nat → Prop} 
           out := Out.tx l.now n.sess n.mid (n.cnt + 1) true :: l.out } :=
       L_ext hnowR hres.2.2 hsess (by rw [hres.1, hcon])
     rw [heq]
-    obtain ⟨t0, ht0, hd0⟩ := hpn
-    simp only [toP] at ht0 hd0
+    have hpn' : pu → ∃ t0, Out.tx t0 n.sess n.mid 0 true ∈ l.out ∧ l.now = sched t0 n.timeout (n.cnt + 1) := hpn
     have hab := absP_enqueue (mxOf par) l.q l.now (n.timeout * 2 ^ (n.cnt + 1)) { n with cnt := n.cnt + 1 }
       (Or.inr hi.base)
     refine ⟨⟨enqueue_base_le _ _ hi.base, ?_, ?_, ?_, ?_⟩, ?_, rfl⟩
@@ -238,18 +247,22 @@ theorem retransmit_finv {par : Nat → Sess} {P : Nat → Nat → Nat → Prop} 
       simp only [] at hp'
       rw [hab] at hp'
       rcases mem_pinsert.1 hp' with rfl | hp'
-      · refine ⟨t0, List.mem_cons_of_mem _ ht0, ?_⟩
+      · intro hpu'
+        obtain ⟨t0, ht0, hd0⟩ := hpn' hpu'
+        refine ⟨t0, List.mem_cons_of_mem _ ht0, ?_⟩
         simp only [toP]
         rw [Coap.Timer.sched_succ t0 n.timeout (n.cnt + 1), ← hd0]
       · exact pendOk_mono _ (hi.pend p hp')
-    · exact outOk_cons_tx _ _ _ _ hi.outs ⟨t0, n.timeout, List.mem_cons_of_mem _ ht0, hd0, Nat.succ_le_of_lt hc, hP⟩
-    · rw [fut_iff (mxOf par)]
-      intro p hp'
+    · refine outOk_cons_tx _ _ _ _ hi.outs (fun hpu' => ?_)
+      obtain ⟨t0, ht0, hd0⟩ := hpn' hpu'
+      exact ⟨t0, n.timeout, List.mem_cons_of_mem _ ht0, hd0, Nat.succ_le_of_lt hc, hP⟩
+    · rw [fut_iff pu (mxOf par)]
+      intro hpu' p hp'
       simp only [] at hp'
       rw [hab] at hp'
       rcases mem_pinsert.1 hp' with rfl | hp'
       · simp
-      · exact (fut_iff (mxOf par) l).1 hf p hp'
+      · exact (fut_iff pu (mxOf par) l).1 hf hpu' p hp'
   · have hc' : ¬ n.cnt < (l.getS n.sess).maxRtx := by rw [hg]; exact hc
     have heq : retransmit l n = (release l n.sess).emit (.nack (release l n.sess).now n.sess .retries n.mid true) := by
       unfold retransmit
@@ -259,9 +272,9 @@ theorem retransmit_finv {par : Nat → Sess} {P : Nat → Nat → Nat → Prop} 
     exact ⟨finv_emit_other _ hrel.1 (by intros; simp), hrel.2.1, hrel.2.2⟩
 
 /-- the due loop: under punctuality whatever fires is due exactly now -/
-theorem dueLoop_finv {par : Nat → Sess} {P : Nat → Nat → Nat → Prop} (hp : GPar par) :
-    ∀ (f : Nat) (l : L), FInv par P l → Fut l →
-      FInv par P (dueLoop f l) ∧ Fut (dueLoop f l) ∧ (dueLoop f l).now = l.now := by
+theorem dueLoop_finv {pu : Prop} {par : Nat → Sess} {P : Nat → Nat → Nat → Prop} (hp : GPar par) :
+    ∀ (f : Nat) (l : L), FInv pu par P l → Fut pu l →
+      FInv pu par P (dueLoop f l) ∧ Fut pu (dueLoop f l) ∧ (dueLoop f l).now = l.now := by
   intro f
   induction f with
   | zero => intro l hi hf; exact ⟨hi, hf, rfl⟩
@@ -276,21 +289,22 @@ theorem dueLoop_finv {par : Nat → Sess} {P : Nat → Nat → Nat → Prop} (hp
       · obtain ⟨rest, hpop, _, hloop⟩ := dueLoop_due f l hd r hn hi.base hdue
         rw [hloop]
         have hab := absP_popNext (mxOf par) l.q.base l.q.nodes hd rest hpop
-        have hfut := (fut_iff (mxOf par) l).1 hf
-        have hnow : l.q.base + hd.t = l.now := by
-          have := hfut (l.q.base + hd.t, toP (mxOf par) hd) (by rw [hab]; simp)
-          simp only [] at this
-          omega
+        have hfut := (fut_iff pu (mxOf par) l).1 hf
         have hall := all_popNext (nodeOk_tfree par P) l.q.nodes hd rest hpop hi.nodes
-        have hpn : PendOk l.out (l.now, toP (mxOf par) hd) := by
-          have := hi.pend (l.q.base + hd.t, toP (mxOf par) hd) (by rw [hab]; simp)
+        have hpn : PendOk pu l.out (l.now, toP (mxOf par) hd) := by
+          intro hpu'
+          have hnow : l.q.base + hd.t = l.now := by
+            have := hfut hpu' (l.q.base + hd.t, toP (mxOf par) hd) (by rw [hab]; simp)
+            simp only [] at this
+            omega
+          have := hi.pend (l.q.base + hd.t, toP (mxOf par) hd) (by rw [hab]; simp) hpu'
           rw [hnow] at this; exact this
-        have hi1 : FInv par P { l with q := { l.q with nodes := rest } } :=
+        have hi1 : FInv pu par P { l with q := { l.q with nodes := rest } } :=
           ⟨hi.base, hi.sess, hall.2, fun p hp' => hi.pend p (by rw [hab]; exact List.mem_cons_of_mem _ hp'), hi.outs⟩
-        have hf1 : Fut { l with q := { l.q with nodes := rest } } := by
-          rw [fut_iff (mxOf par)]
-          intro p hp'
-          exact hfut p (by rw [hab]; exact List.mem_cons_of_mem _ hp')
+        have hf1 : Fut pu { l with q := { l.q with nodes := rest } } := by
+          rw [fut_iff pu (mxOf par)]
+          intro hpu' p hp'
+          exact hfut hpu' p (by rw [hab]; exact List.mem_cons_of_mem _ hp')
         have h2 := retransmit_finv hp _ hd hi1 hf1 hall.1 hpn
         have h3 := ih _ h2.1 h2.2.1
         exact ⟨h3.1, h3.2.1, by rw [h3.2.2, h2.2.2]⟩
@@ -328,10 +342,10 @@ instance decRunG : (evs : List Ev) → (l : L) → Decidable (RunG l evs)
     unfold RunG
     exact @instDecidableAnd _ _ _ (decRunG evs _)
 
-theorem removed_finv {par : Nat → Sess} {P : Nat → Nat → Nat → Prop} (l : L) (s mid : Nat)
-    (hi : FInv par P l) (hf : Fut l) :
-    FInv par P { l with q := { l.q with nodes := (removeNode l.q.nodes s mid).2 } } ∧
-    Fut { l with q := { l.q with nodes := (removeNode l.q.nodes s mid).2 } } ∧
+theorem removed_finv {pu : Prop} {par : Nat → Sess} {P : Nat → Nat → Nat → Prop} (l : L) (s mid : Nat)
+    (hi : FInv pu par P l) (hf : Fut pu l) :
+    FInv pu par P { l with q := { l.q with nodes := (removeNode l.q.nodes s mid).2 } } ∧
+    Fut pu { l with q := { l.q with nodes := (removeNode l.q.nodes s mid).2 } } ∧
     (∀ n, (removeNode l.q.nodes s mid).1 = some n → n.con = true ∧ n.mid = mid) := by
   have h1 := (absP_removeNode (mxOf par) l.q.base l.q.nodes s mid).1
   have h3 := all_removeNode (nodeOk_tfree par P) l.q.nodes s mid hi.nodes
@@ -339,28 +353,28 @@ theorem removed_finv {par : Nat → Sess} {P : Nat → Nat → Nat → Prop} (l 
       p ∈ absP (mxOf par) l.q.base l.q.nodes := by
     intro p hp; rw [h1] at hp; exact mem_premove hp
   refine ⟨⟨hi.base, hi.sess, h3.1, fun p hp => hi.pend p (hsub p hp), hi.outs⟩, ?_, ?_⟩
-  · rw [fut_iff (mxOf par)]
-    intro p hp
-    exact (fut_iff (mxOf par) l).1 hf p (hsub p hp)
+  · rw [fut_iff pu (mxOf par)]
+    intro hpu' p hp
+    exact (fut_iff pu (mxOf par) l).1 hf hpu' p (hsub p hp)
   · intro n hn
     exact ⟨(h3.2 n hn).1, (removeNode_key _ _ _ _ hn).2⟩
 
-theorem afterRx_finv {par : Nat → Sess} {P : Nat → Nat → Nat → Prop} (hp : GPar par) (l : L)
-    (hi : FInv par P l) (hf : Fut l) : FInv par P (afterRx l) := by
+theorem afterRx_finv {pu : Prop} {par : Nat → Sess} {P : Nat → Nat → Nat → Prop} (hp : GPar par) (l : L)
+    (hi : FInv pu par P l) (hf : Fut pu l) : FInv pu par P (afterRx l) := by
   unfold afterRx
   rw [prepareCore_fst]
   exact (dueLoop_finv hp _ l hi hf).1
 
-theorem step_finv {par : Nat → Sess} {P : Nat → Nat → Nat → Prop} (hp : GPar par) (l : L) (ev : Ev)
-    (hi : FInv par P l) (hok : EvG l ev) (hpu : EvPunct l ev)
+theorem step_finv {pu : Prop} {par : Nat → Sess} {P : Nat → Nat → Nat → Prop} (hp : GPar par) (l : L) (ev : Ev)
+    (hi : FInv pu par P l) (hok : EvG l ev) (hpu : pu → EvPunct l ev)
     (hP : ∀ s mid r, ev = .submit s true mid r →
       P s mid (calcTimeout (par s).atI (par s).atF (par s).arfI (par s).arfF r)) :
-    FInv par P (Msg.step l ev) := by
+    FInv pu par P (Msg.step l ev) := by
   cases ev with
   | setNow t =>
     exact ⟨Nat.le_trans hi.base hok, hi.sess, hi.nodes, hi.pend, hi.outs⟩
   | prepare =>
-    have hf : Fut l := hpu
+    have hf : Fut pu l := hpu
     have := (dueLoop_finv hp (dueFuel l) l hi hf).1
     simp only [Msg.step, prepare]
     rcases hpc : prepareCore l with ⟨l', w⟩
@@ -368,7 +382,7 @@ theorem step_finv {par : Nat → Sess} {P : Nat → Nat → Nat → Prop} (hp : 
     subst e
     exact finv_emit_other _ this (by intros; simp)
   | submit s con mid r =>
-    have hf : Fut l := hpu
+    have hf : Fut pu l := hpu
     obtain ⟨hcon, hT, h64⟩ := hok
     subst hcon
     obtain ⟨ca, dq, hg, hle, hdq⟩ := hi.sess s
@@ -401,13 +415,14 @@ theorem step_finv {par : Nat → Sess} {P : Nat → Nat → Nat → Prop} (hp : 
       rw [eset]
       have hmod := calcTimeout_mod (l.getS s).atI (l.getS s).atF (l.getS s).arfI (l.getS s).arfF r
       generalize calcTimeout (l.getS s).atI (l.getS s).atF (l.getS s).arfI (l.getS s).arfF r = T at *
-      have hi2 : FInv par P ((l.emit (.tx l.now s mid 0 true)).setS s
+      have hi2 : FInv pu par P ((l.emit (.tx l.now s mid 0 true)).setS s
           { par s with conActive := (ca + 1) % 256, delayq := dq }) := by
         refine ⟨hi.base, gsess_setS (gsess_congr rfl hi.sess) s _ dq ?_ hdq, hi.nodes,
           fun p hp' => pendOk_mono _ (hi.pend p hp'), ?_⟩
         · have : (ca + 1) % 256 ≤ ca + 1 := Nat.mod_le _ _
           omega
-        · exact outOk_cons_tx _ _ _ _ hi.outs ⟨l.now, T, by simp, (sched_zero _ _).symm, Nat.zero_le _, hPs⟩
+        · exact outOk_cons_tx _ _ _ _ hi.outs
+            (fun _ => ⟨l.now, T, by simp, (sched_zero _ _).symm, Nat.zero_le _, hPs⟩)
       have hnode : NodeOk par P { sess := s, mid := mid, t := 0, timeout := T, cnt := 0, tok := mid, con := true } :=
         ⟨rfl, rfl, hT, Nat.zero_le _, h64, hPs⟩
       have := finv_enq_fresh _ _ hi2 hf hnode rfl (by simp [L.emit, L.setS])
@@ -425,7 +440,7 @@ theorem step_finv {par : Nat → Sess} {P : Nat → Nat → Nat → Prop} (hp : 
         have key : ∀ X : Sess, X = { par s with conActive := ca, delayq := dq ++
               [{ sess := s, mid := mid, t := 0,
                  timeout := calcTimeout (l.getS s).atI (l.getS s).atF (l.getS s).arfI (l.getS s).arfF r,
-                 cnt := 0, tok := mid, con := true }] } → FInv par P (l.setS s X) := by
+                 cnt := 0, tok := mid, con := true }] } → FInv pu par P (l.setS s X) := by
           intro X hX
           rw [hX]
           refine ⟨hi.base, gsess_setS hi.sess s ca _ hle ?_, hi.nodes, hi.pend, hi.outs⟩
@@ -436,12 +451,12 @@ theorem step_finv {par : Nat → Sess} {P : Nat → Nat → Nat → Prop} (hp : 
           · exact ⟨rfl, rfl, hT, hT32, rfl, h64, hPs⟩
         exact key _ (by rw [hg]; simp [hopen])
   | rxAck s mid =>
-    have hf : Fut l := hpu
+    have hf : Fut pu l := hpu
     obtain ⟨ca, dq, hg, hle, hdq⟩ := hi.sess s
     have hso : (l.getS s).sockOpen = true := by rw [hg]; exact (hp s).2.1
     obtain ⟨hi1, hf1, _⟩ := removed_finv l s mid hi hf
     simp only [Msg.step, hso, if_true]
-    have : FInv par P (rxAck l s mid) ∧ Fut (rxAck l s mid) := by
+    have : FInv pu par P (rxAck l s mid) ∧ Fut pu (rxAck l s mid) := by
       unfold rxAck
       rcases hrm : removeNode l.q.nodes s mid with ⟨sent, rest⟩
       rw [hrm] at hi1 hf1
@@ -452,12 +467,12 @@ theorem step_finv {par : Nat → Sess} {P : Nat → Nat → Nat → Prop} (hp : 
         exact ⟨this.1, this.2.1⟩
     exact afterRx_finv hp _ this.1 this.2
   | rxRst s mid =>
-    have hf : Fut l := hpu
+    have hf : Fut pu l := hpu
     obtain ⟨ca, dq, hg, hle, hdq⟩ := hi.sess s
     have hso : (l.getS s).sockOpen = true := by rw [hg]; exact (hp s).2.1
     obtain ⟨hi1, hf1, hk⟩ := removed_finv l s mid hi hf
     simp only [Msg.step, hso, if_true]
-    have : FInv par P (rxRst l s mid) ∧ Fut (rxRst l s mid) := by
+    have : FInv pu par P (rxRst l s mid) ∧ Fut pu (rxRst l s mid) := by
       unfold rxRst
       rcases hrm : removeNode l.q.nodes s mid with ⟨sent, rest⟩
       rw [hrm] at hi1 hf1 hk
@@ -474,25 +489,25 @@ theorem step_finv {par : Nat → Sess} {P : Nat → Nat → Nat → Prop} (hp : 
   | connect s => exact absurd hok (by simp [EvG])
   | disconnect s => exact absurd hok (by simp [EvG])
 
-theorem run_finv {par : Nat → Sess} {P : Nat → Nat → Nat → Prop} (hp : GPar par) :
-    ∀ (evs : List Ev) (l : L), FInv par P l → RunG l evs → Punctual l evs →
+theorem run_finv {pu : Prop} {par : Nat → Sess} {P : Nat → Nat → Nat → Prop} (hp : GPar par) :
+    ∀ (evs : List Ev) (l : L), FInv pu par P l → RunG l evs → (pu → Punctual l evs) →
       (∀ s mid r, Ev.submit s true mid r ∈ evs → P s mid (calcTimeout (par s).atI (par s).atF (par s).arfI (par s).arfF r)) →
-      FInv par P (Msg.run l evs) := by
+      FInv pu par P (Msg.run l evs) := by
   intro evs
   induction evs with
   | nil => intro l hi _ _ _; exact hi
   | cons ev evs ih =>
     intro l hi hin hpu hP
-    exact ih _ (step_finv hp l ev hi hin.1 hpu.1 (fun s mid r h => hP s mid r (by simp [h]))) hin.2 hpu.2
-      (fun s mid r h => hP s mid r (by simp [h]))
+    exact ih _ (step_finv hp l ev hi hin.1 (fun h => (hpu h).1) (fun s mid r h => hP s mid r (by simp [h]))) hin.2
+      (fun h => (hpu h).2) (fun s mid r h => hP s mid r (by simp [h]))
 
 theorem gpar_of (sess : List Sess) (h : ∀ se ∈ sess, SessOk se) : GPar (parOf sess) := fun s =>
   have := parOf_ok sess h s
   ⟨this.1, this.2.2.1, this.2.2.2.1, this.2.2.2.2.1⟩
 
-theorem finv_init (P : Nat → Nat → Nat → Prop) (now0 : Nat) (sess : List Sess) (h : ∀ se ∈ sess, SessOk se) :
-    FInv (parOf sess) P (Msg.init now0 sess) := by
-  refine ⟨Nat.zero_le _, ?_, by simp [Msg.init], by simp [Msg.init, absP], by intro t s mid k c hm; simp [Msg.init] at hm⟩
+theorem finv_init (pu : Prop) (P : Nat → Nat → Nat → Prop) (now0 : Nat) (sess : List Sess) (h : ∀ se ∈ sess, SessOk se) :
+    FInv pu (parOf sess) P (Msg.init now0 sess) := by
+  refine ⟨Nat.zero_le _, ?_, by simp [Msg.init], by simp [Msg.init, absP], by intro _ t s mid k c hm; simp [Msg.init] at hm⟩
   intro s
   have hok := parOf_ok sess h s
   refine ⟨(parOf sess s).conActive, [], ?_, hok.2.2.2.2.2, by simp⟩
